@@ -161,12 +161,42 @@ def r3_keys(ctx):
             if isinstance(v, ast.Name):
                 defs = rd.at(rs_node, v.id)
                 src = defs[0].value if len(defs) == 1 and isinstance(defs[0].value, ast.AST) else None
+            keyenv = {}
+            tk = subscript_key(src) if src is not None else None
+            if tk is not None:
+                # `tally = {key: sum(s[key] for s in summaries) for key in ('passed', ...)}` read by constant key
+                defs = rd.at(rs_node, tk[0])
+                dc = defs[0].value if len(defs) == 1 and isinstance(defs[0].value, ast.AST) else None
+                if isinstance(dc, ast.DictComp) and len(dc.generators) == 1 and not dc.generators[0].ifs \
+                        and isinstance(dc.generators[0].target, ast.Name) and is_name(dc.key, dc.generators[0].target.id) \
+                        and isinstance(dc.generators[0].iter, (ast.Tuple, ast.List, ast.Set)) \
+                        and all(isinstance(e, ast.Constant) for e in dc.generators[0].iter.elts):
+                    need(tk[1] in [e.value for e in dc.generators[0].iter.elts], 'C10.R3: %s reads a key the tally comprehension does not produce' % kk)
+                    keyenv = {dc.generators[0].target.id: tk[1]}
+                    src = dc.value
+                elif isinstance(dc, ast.Dict):
+                    hit = [v2 for k2, v2 in zip(dc.keys, dc.values) if isinstance(k2, ast.Constant) and k2.value == tk[1]]
+                    need(len(hit) == 1, 'C10.R3: %s reads a key the tally literal does not hold' % kk)
+                    src = hit[0]
+                else:
+                    need(False, 'C10.R3: the source of %s (%s) is not a recognised tally' % (kk, ctx.src(src)))
+            if src is None and isinstance(v, ast.Name):
+                # several definitions: wrong as soon as one of them is not the full sum (decided below on that one)
+                cands = [d.value for d in rd.at(rs_node, v.id) if isinstance(d.value, ast.AST)]
+                need(cands and len(cands) == len(rd.at(rs_node, v.id)), 'C10.R3: the definition of %s is not resolvable' % kk)
+                bad = [c for c in cands if not (isinstance(c, ast.Call) and is_name(c.func, 'sum'))]
+                src = bad[0] if bad else cands[0]
             if isinstance(src, ast.Call) and is_name(src.func, 'sum') and src.args:
                 gen = src.args[0]
                 if isinstance(gen, (ast.GeneratorExp, ast.ListComp)) and len(gen.generators) == 1:
                     it = gen.generators[0].iter
                     k = subscript_key(gen.elt)
+                    if k is None and isinstance(gen.elt, ast.Subscript) and isinstance(gen.elt.value, ast.Name) \
+                            and isinstance(gen.elt.slice, ast.Name) and gen.elt.slice.id in keyenv:
+                        k = (gen.elt.value.id, keyenv[gen.elt.slice.id])
                     ok = is_name(it, 'summaries') and k is not None and k[1] == want_key and not gen.generators[0].ifs
+            need(ok or any(is_name(x, 'summaries') for x in ast.walk(src)),
+                 'C10.R3: %s is computed as %s, which this rule cannot relate to the per-doctest summaries' % (kk, ctx.src(src)))
             rep.ob('C10.R3', ctx.loc(f, v), "'%s': %s" % (kk, ctx.src(src) if src is not None else '?'), ok,
                    "sum over all summaries of key '%s'" % want_key if ok else "%s is not the sum of summary['%s'] over all doctests run" % (kk, want_key), anchor=RUNEX)
         if kk == 'n_total':
